@@ -184,9 +184,14 @@ def runSection (r : Report) (s : Section) : Report := Id.run do
           let cs := Spec.candidates st.tbl m toks
           r := r.addCover (if ps.isEmpty then "hit-literal-only" else if kind.contains 'l' then "hit-mixed" else "hit-vars-only")
           if cs.length > 1 then r := r.addCover "hit-several-candidates"
-          -- backtracking: some candidate-free literal prefix was entered first
-          if (st.tbl.any fun x => x.method == m && x.pats.length == toks.length && x.pats.head? == toks.head?
-                && !(Spec.matchesP x.pats toks)) && kind.front == 'v' then r := r.addCover "hit-after-backtrack"
+          -- backtracking: where the chosen route has a variable, a literal child for the request's token
+          -- existed (it is searched first and must have failed)
+          let cp := route.getD []
+          let backtracked := (List.range cp.length).any fun i =>
+            isVar (cp.getD i "") && st.tbl.any fun x =>
+              x.method == m && x.pats.take i == cp.take i && x.pats[i]? == toks[i]? && !isVar (x.pats.getD i "")
+          if backtracked then r := r.addCover "hit-after-backtrack"
+          if !(Spec.distinctNames cp) then r := r.addCover "hit-repeated-name-in-pattern"
         | .notAllowed a => r := r.addCover (if a.length > 1 then "405-several" else "405-one")
         | .notFound => r := r.addCover "404"
         -- monitor on the implementation's own outcomes
